@@ -585,6 +585,28 @@ func controlVariants(control string) (out []string) {
 			}
 		}
 	}
+	// last resort: a v or # parameter replaced by a literal or omitted (for v this only helps together with
+	// the removal of its argument, which the two-steps-at-once phase of reduce tries)
+	for idx := 0; idx < total; idx++ {
+		for pi := 0; pi < 7; pi++ {
+			for _, lit := range []param{{}, {kind: 'n', n: 1}, {kind: 'n', n: 2}, {kind: 'n', n: 3}, {kind: 'c', c: '.'}} {
+				pi, lit := pi, lit
+				if s, ok := apply(idx, func(l *[]*node, i int) bool {
+					n := (*l)[i]
+					if n.ch == 0 || len(n.params) <= pi || (n.params[pi].kind != 'v' && n.params[pi].kind != '#') {
+						return false
+					}
+					if lit.kind == 0 && n.params[pi].kind == '#' {
+						return false // already tried above
+					}
+					n.params[pi] = lit
+					return true
+				}); ok && s != control {
+					out = append(out, s)
+				}
+			}
+		}
+	}
 	return out
 }
 
@@ -996,6 +1018,39 @@ func (cr *caseRun) spaced(what string) (out *caseRun, ok bool) {
 	return out, ok
 }
 
+// hasRadixParams: some ~R directive carries prefix parameters (in the control or in a control string
+// passed as an argument).
+func (cr *caseRun) hasRadixParams() (found bool) {
+	defer func() {
+		if rec := recover(); rec != nil {
+			found = false
+		}
+	}()
+	var walk func(l []*node) bool
+	walk = func(l []*node) bool {
+		for _, n := range l {
+			if n.ch == 'R' && 0 < len(n.params) {
+				return true
+			}
+			if walk(n.body) {
+				return true
+			}
+			for _, cl := range n.clauses {
+				if walk(cl) {
+					return true
+				}
+			}
+		}
+		return false
+	}
+	for _, c := range cr.controls() {
+		if walk(parseControl(c)) {
+			return true
+		}
+	}
+	return false
+}
+
 // hasNestedParamBlock: some ~[ inside a ~[ or ~{ inside a ~{ carries a prefix parameter (in the control
 // or in a control string passed as an argument).
 func (cr *caseRun) hasNestedParamBlock() (found bool) {
@@ -1075,6 +1130,26 @@ func signature(cr *caseRun, v verdict) string {
 	sh := shape(cr.control)
 	if v.category == "wrong-text" && (strings.HasPrefix(v.kind, "wrong-word") || v.kind == "spelling-ok-but-spacing-wrong") {
 		return fmt.Sprintf("shape=%s kind=%s", sh, v.kind)
+	}
+	if cr.hasRadixParams() {
+		// D5 hypothesis: the text (or the Roman range error) is what the definitions give when ~R ignores
+		// its prefix parameters while v parameters still consume their arguments
+		vals := make([]*Val, len(cr.args))
+		for i, a := range cr.args {
+			vals[i] = toVal(a)
+		}
+		texts, ok, _ := refTexts(cr.newRef(refMutRadixIgnored), cr.control, vals)
+		got := v.obs[0]
+		switch {
+		case got.err == nil && ok:
+			for _, t := range texts {
+				if t == got.text {
+					return "trigger=~R-prefix-parameters-ignored kind=wrong-text"
+				}
+			}
+		case got.err != nil && !got.err.GoFault && !ok && strings.Contains(got.err.Message, "Radix directive"):
+			return "trigger=~R-prefix-parameters-ignored kind=error"
+		}
 	}
 	if v.category == "error" || v.category == "go-fault" || v.kind == "wrong-text" {
 		for _, what := range []string{")", "]", "}", ";", ":;", ""} {
@@ -1243,7 +1318,15 @@ func countShape(res *engine.Result, cr *caseRun, v verdict) {
 			if n.colon || n.at || 0 < len(n.params) {
 				feat = true
 			}
+			sawV := false
 			for _, p := range n.params {
+				if p.kind == '#' && sawV {
+					res.Hit("param:#-after-v-in-one-directive")
+					if 0 < depth {
+						res.Hit("param:#-after-v-inside-a-block")
+					}
+				}
+				sawV = sawV || p.kind == 'v'
 				switch p.kind {
 				case 'v':
 					res.Hit("param:v")
